@@ -152,6 +152,49 @@ void profile_storm(RunCtx& ctx)
             if (rng.chance(0.1)) {
                 c.bytes = deep_expr(1 << rng.range(4, 13), rng.below(5));
                 what = "deep-expression";
+            } else if (rng.chance(0.25)) {
+                // corners of the grammar the model generator does not visit (statements, gantt, progress, update hooks,
+                // scalars, records, external functions, dynamic templates, built-in functions); damaged like everything else
+                struct Snip
+                {
+                    int part;
+                    const char* text;
+                };
+                static const Snip snips[] = {
+                    {UTAP::S_DECLARATION, "void zs1(int a) { switch (a) { case 0: gi0 = 1; break; case 1: gi0 = 2; default: gi0 = 3; } }"},
+                    {UTAP::S_DECLARATION, "int zs2(int a) { int i = 0; while (i < a) { i++; if (i == 3) continue; if (i > 5) break; } do { i--; } while (i > 0); return i; }"},
+                    {UTAP::S_DECLARATION, "void zs3() { int i; for (i = 0; i < 3; i++) { assert i >= 0; } for (j : int[0,2]) { gi0 += j; } }"},
+                    {UTAP::S_DECLARATION, "typedef scalar[3] zsc_t; zsc_t zsv; int zsa[zsc_t]; meta int zsm; const bool zsb = true; string zss = \"x\";"},
+                    {UTAP::S_DECLARATION, "typedef struct { int a; struct { bool b; clock c; } in; } zr_t; zr_t zr = { 1, { true } }; zr_t zrs[2];"},
+                    {UTAP::S_DECLARATION, "import \"libzz.so\" { int zext(int a); zalias = double zsqrt(double x); };"},
+                    {UTAP::S_DECLARATION, "before_update { gi0 = 0, gi0++ } after_update { gi0-- }"},
+                    {UTAP::S_DECLARATION, "dynamic ZDyn(const int zp); int zn = numof(ZDyn);"},
+                    {UTAP::S_DECLARATION, "double zd = fabs(-1.5) + sqrt(2.0) + pow(2, 3) + fmod(5.0, 2.0) + fma(1.0, 2.0, 3.0) + ceil(0.5); int zi = abs(-3) + fint(2.7);"},
+                    {UTAP::S_DECLARATION, "urgent broadcast chan zub; chan zc2[2][3]; int[0,5] zbi = 2; const int zk[3] = { 1, 2, 3 }; hybrid clock zh;"},
+                    {UTAP::S_DECLARATION, "int zop = (1 ^ 2) | (3 & 4) << 1 >> 1; bool zb2 = !(1 < 2) || (2 >= 1 and 3 != 4) imply not true; int zmm = 1 <? 2 >? 3;"},
+                    {UTAP::S_DECLARATION, "chan priority ch0 < default; int zq = exists (i : int[0,1]) forall (j : int[0,1]) i == j;"},
+                    {UTAP::S_SYSTEM, "system T0; progress { gi0; gi0 > 1 : gi0 + 1; } gantt { zg1 : gi0 > 1 -> 2; zg2(i : int[0,1]) : for (j : int[0,1]) gi0 == j -> i; }"},
+                    {UTAP::S_SYSTEM, "zP1 = T0(); zP2 = T0(); system zP1 < zP2, T0;"},
+                    {UTAP::S_SYSTEM, "IO T0 { ch0!, ch0? } system T0;"},
+                    {UTAP::S_ASSIGN, "gi0 = spawn ZDyn(1), exit(), gi0 = (sum (d : ZDyn) d.zp)"},
+                    {UTAP::S_GUARD, "forall (d : ZDyn) (d.zp > 0) && exists (d : ZDyn) (true) && numof(ZDyn) > 0"},
+                    {UTAP::S_EXPRESSION, "T0.L0 && deadlock || gi0' == 2 && gx0' >= 1"},
+                    {UTAP::S_XTA, "process ZP(int &zr; const int zc) { clock x; state A { x <= zc }, B; commit B; urgent A; init A; trans A -> B { guard x >= 1; sync ch0!; assign zr = 1; }, B -u-> A { }; } ZI = ZP(gi0, 3); system ZI;"},
+                    {UTAP::S_XTA_PROCESS, "process ZQ() { state A, B; init A; trans A -> B { select i : int[0,1]; guard i > 0; probability 3; }, -> A { }; }"},
+                    {UTAP::S_PROPERTY, "A[] (gi0 > 1 imply A<> gi0 == 0) and not deadlock\nE<> forall (i : int[0,1]) gi0 > i\ninf: gx0\nsup{gi0 > 1}: gi0, gx0"},
+                    {UTAP::S_PROPERTY, "Pr[<=10; 100](<> gi0 > 3) >= 0.5\nE[<=10; 5](max: gi0)\nsimulate [<=10; 2] {gi0, gx0} : 1 : gi0 > 2\nPr[#<=5]([] gi0 < 3) <= Pr[<=5](<> gi0 > 1)"},
+                    {UTAP::S_PROPERTY, "strategy zst = control: A[] gi0 < 5\nA<> gi0 == 1 under zst\nsaveStrategy(\"/nonexistent/zz\", zst)\nstrategy zld = loadStrategy{gi0}->{gx0}(\"zz\")\nstrategy zmn = minE(gi0)[<=10]{gi0}->{gx0} : <> gi0 > 1"},
+                };
+                const Snip& sn = snips[rng.below(sizeof snips / sizeof snips[0])];
+                c.bytes = sn.text;
+                if (rng.chance(0.7))
+                    c.part = sn.part;
+                what = "grammar-snippet";
+                if (rng.chance(0.6)) {
+                    std::string d;
+                    c.bytes = apply_random_token_fault_text(c.bytes, rng, d);
+                    what += "+" + d;
+                }
             } else if (rng.chance(0.6)) {
                 std::string d;
                 c.bytes = apply_random_token_fault_text(c.bytes, rng, d);
